@@ -9,12 +9,21 @@ C10 — line-protocol driver of the model (core only).
   show | sel | keys <mst> <PRED>             → ids <ascending>
   tagvals <mst> <key> <PRED>                 → vals <ascending>
 
+  mtv <v>                                    → b <bytes>            (marshalTagValue)
+  utv <bytes>                                → ok <value> <rest> | err <class>
+  ck <name> <key> | uck <bytes>              → b <bytes> | ok <key> <name> | err <class> | panic
+  cmp <a> <b>                                → lt | ge              (order of the marshalled values, by `keyLt`)
+  parse <item>                               → ok n=… id=… sk=… k=… v=… | err <class> | panic
+  scan key|val|exact|mst|skey|id …           → p <prefix> items <n> <item>…   (seek + scan over the sorted
+                                               single-tsid items of the visible series)
+
 PRED = <nre> R… <prefix tokens>: `& a b`, `| a b`, `( a`, `= k v`, `! k v`, `~ k i`, `^ k i`, `*`.
 R = R:<matchEmpty><literal><emptyText>:<tf.value>:<text>:<value/tf/prune;…> — the matcher tables
 of the i-th regex atom as the harness read them off the real tag filter (`_` = absent tag).
 Strings are hex with an `x` prefix.
 -/
 import OG.C10.Model
+import OG.C10.Bytes
 
 namespace OG.C10
 
@@ -122,6 +131,112 @@ def tablesCover (items : List Item) (mst : Str) (p : Option (Pred DRe)) : Bool :
         | _ => true
     | _ => true
 
+
+/-! ### byte-level ops -/
+
+open OG.C10.Bytes in
+def hexVal (c : Char) : Option Nat :=
+  if '0' ≤ c ∧ c ≤ '9' then some (c.toNat - 48)
+  else if 'a' ≤ c ∧ c ≤ 'f' then some (c.toNat - 87)
+  else none
+
+def hexBytesAux : List Char → Option Bytes.B
+  | [] => some []
+  | [_] => none
+  | a :: b :: t => do
+    let x ← hexVal a
+    let y ← hexVal b
+    let r ← hexBytesAux t
+    some (UInt8.ofNat (x * 16 + y) :: r)
+
+/-- hex text (without the `x`) → bytes -/
+def hexBytes (s : Str) : Option Bytes.B := hexBytesAux s.toList
+
+def unhexB (t : String) : Option Bytes.B := do hexBytes (← unhex t)
+
+def hexDigit (n : Nat) : Char := if n < 10 then Char.ofNat (48 + n) else Char.ofNat (87 + n)
+
+def showB (b : Bytes.B) : String :=
+  "x" ++ String.ofList (b.flatMap fun c => [hexDigit (c.toNat / 16), hexDigit (c.toNat % 16)])
+
+def keyLtB : Bytes.B → Bytes.B → Bool
+  | [], [] => false
+  | [], y :: _ => decide (2 < y)
+  | x :: _, [] => decide (x ≤ 2)
+  | x :: xs, y :: ys => decide (x < y) || (x == y && keyLtB xs ys)
+
+def encTags (tags : List (Str × Str)) : Option (List (Bytes.B × Bytes.B)) :=
+  tags.mapM fun t => do some ((← hexBytes t.1), (← hexBytes t.2))
+
+/-- the bytes of a model item (one tsid per tag→tsids row) -/
+def encodeItem : Item → Option Bytes.B
+  | .k2i key id => do some (Bytes.itemK2I (Bytes.indexKey (← hexBytes key.mst) (← encTags key.tags)) id)
+  | .i2k id key => do some (Bytes.itemI2K id (Bytes.indexKey (← hexBytes key.mst) (← encTags key.tags)))
+  | .t2i m k v id => do some (Bytes.itemT2I (← hexBytes m) (← hexBytes k) (← hexBytes v) [id])
+
+def dedupAdj : List Bytes.B → List Bytes.B
+  | a :: b :: rest => if a == b then dedupAdj (b :: rest) else a :: dedupAdj (b :: rest)
+  | l => l
+
+def scanAnswer (s : St) (p : Bytes.B) : String :=
+  match s.vis.mapM encodeItem with
+  | none => "bad-op"
+  | some items =>
+    let table := dedupAdj (items.mergeSort (fun a b => Bytes.ble a b))
+    let got := Bytes.seekScan p table
+    got.foldl (fun acc it => acc ++ " " ++ showB it) s!"p {showB p} items {got.length}"
+
+def uerrText : Bytes.UErr → String
+  | .missingSeparator => "missing-separator"
+  | .truncatedEscape => "truncated-escape"
+  | .invalidEscape _ => "invalid-escape"
+
+def perrText : Bytes.PErr → String
+  | .tooShort => "err too-short"
+  | .noKvSeparator => "err no-kv-separator"
+  | .kvSeparatorMisplaced => "err kv-separator-misplaced"
+  | .noTagValue => "err no-tag-value"
+  | .tagValue e => "err " ++ uerrText e
+  | .composite .insufficient => "err composite-insufficient"
+  | .composite .badVarUint => "err bad-varuint"
+  | .composite .slicePanic => "panic"
+  | .measurement .tooSmallForTags => "err too-small-for-tags"
+  | .measurement .tooSmallIndexKey => "err too-small-index-key"
+  | .measurement .tooSmallForMeasurement => "err too-small-for-measurement"
+  | .measurement .slicePanic => "panic"
+
+def byteOp (s : St) : List String → Option String
+  | ["mtv", v] => do some ("b " ++ showB (Bytes.marshalTagValue [] (← unhexB v)))
+  | ["utv", b] => do
+    match Bytes.unmarshalTagValue [] (← unhexB b) with
+    | .ok (rest, v) => some s!"ok {showB v} {showB rest}"
+    | .err e => some ("err " ++ uerrText e)
+  | ["ck", n, k] => do some ("b " ++ showB (Bytes.marshalCompositeTagKey [] (← unhexB n) (← unhexB k)))
+  | ["uck", b] => do
+    match Bytes.unmarshalCompositeTagKey (← unhexB b) with
+    | .ok (k, n) => some s!"ok {showB k} {showB n}"
+    | .err .insufficient => some "err composite-insufficient"
+    | .err .badVarUint => some "err bad-varuint"
+    | .err .slicePanic => some "panic"
+  | ["cmp", a, b] => do some (if keyLtB (← unhexB a) (← unhexB b) then "lt" else "ge")
+  | ["parse", it] => do
+    match Bytes.parseItem (← unhexB it) with
+    | .ok p => some s!"ok n={showB p.name} id={p.tsid} sk={showB p.seriesKey} k={showB p.key} v={showB p.tagValue}"
+    | .err e => some (perrText e)
+  | ["scan", "key", n, k] => do some (scanAnswer s (Bytes.tagKeyPrefix (← unhexB n) (← unhexB k)))
+  | ["scan", "val", n, k, l] => do some (scanAnswer s (Bytes.tagValuePrefix (← unhexB n) (← unhexB k) (← unhexB l)))
+  | ["scan", "exact", n, k, v] => do
+    some (scanAnswer s (Bytes.tagKeyPrefix (← unhexB n) (← unhexB k) ++ Bytes.marshalTagValue [] (← unhexB v)))
+  | ["scan", "mst", n] => do some (scanAnswer s (Bytes.mstPrefix (← unhexB n)))
+  | ["scan", "skey", n, tags] => do
+    let tags ← encTags (← parseTags tags)
+    some (scanAnswer s (Bytes.seriesKeyPrefix (Bytes.indexKey (← unhexB n) tags)))
+  | ["scan", "id", i] => do some (scanAnswer s ([OG.Gen.C10.nsPrefixTSIDToKey] ++ Bytes.be64 (← i.toNat?)))
+  | _ => none
+
+def isByteOp (k : String) : Bool :=
+  k == "mtv" || k == "utv" || k == "ck" || k == "uck" || k == "cmp" || k == "parse" || k == "scan"
+
 def sortIds (l : List Id) : List Id := l.mergeSort (fun a b => decide (a ≤ b))
 
 def dedupSorted : List Str → List Str
@@ -131,25 +246,7 @@ def dedupSorted : List Str → List Str
 def showIds (pre : String) (l : List Id) : String :=
   (sortIds l).foldl (fun acc i => acc ++ " " ++ toString i) pre
 
-def step (s : St) (line : String) : St × String :=
-  match (line.trimAscii.toString.splitOn " ").filter (· ≠ "") with
-  | ["open", _] => (St.init 1 1000, "ok")
-  | ["ins", m, tags] =>
-    match unhex m, parseTags tags with
-    | some m, some tags => let (id, s') := insert s ⟨m, tags⟩; (s', s!"id {id}")
-    | _, _ => (s, "bad-op")
-  | ["get", m, tags] =>
-    match unhex m, parseTags tags with
-    | some m, some tags => let (id, s') := getSeriesId s ⟨m, tags⟩; (s', s!"id {id}")
-    | _, _ => (s, "bad-op")
-  | ["flush"] => (flush s, "ok")
-  | ["clear"] => (clear s, "ok")
-  | ["reopen"] => (reopen s, "ok")
-  | ["restart", dt] =>
-    match dt.toNat? with
-    | some dt => (restart s dt, "ok")
-    | none => (s, "bad-op")
-  | ["sib"] => (s, "ok")
+def stepSearch (s : St) : List String → St × String
   | "del" :: m :: rest =>
     match unhex m, parsePred rest with
     | some m, some p =>
@@ -180,6 +277,33 @@ def step (s : St) (line : String) : St × String :=
         | _, _ => (s, "bad-op")
       | _, _ => (s, "bad-op")
     else (s, "bad-op")
+  | _ => (s, "bad-op")
+
+def step (s : St) (line : String) : St × String :=
+  match (line.trimAscii.toString.splitOn " ").filter (· ≠ "") with
+  | ["open", _] => (St.init 1 1000, "ok")
+  | ["ins", m, tags] =>
+    match unhex m, parseTags tags with
+    | some m, some tags => let (id, s') := insert s ⟨m, tags⟩; (s', s!"id {id}")
+    | _, _ => (s, "bad-op")
+  | ["get", m, tags] =>
+    match unhex m, parseTags tags with
+    | some m, some tags => let (id, s') := getSeriesId s ⟨m, tags⟩; (s', s!"id {id}")
+    | _, _ => (s, "bad-op")
+  | ["flush"] => (flush s, "ok")
+  | ["clear"] => (clear s, "ok")
+  | ["reopen"] => (reopen s, "ok")
+  | ["restart", dt] =>
+    match dt.toNat? with
+    | some dt => (restart s dt, "ok")
+    | none => (s, "bad-op")
+  | ["sib"] => (s, "ok")
+  | kind :: rest =>
+    if isByteOp kind then
+      match byteOp s (kind :: rest) with
+      | some a => (s, a)
+      | none => (s, "bad-op")
+    else stepSearch s (kind :: rest)
   | _ => (s, "bad-op")
 
 partial def loop (h out : IO.FS.Stream) (s : St) : IO Unit := do
